@@ -274,6 +274,85 @@ def file_vs_model(path, m):
     return fails[:8]
 
 
+def foreign_doc(rng):
+    """A valid SBML L3V1 + fbc v2 document built with libsbml directly (not by cobrapy): species on both sides of a reaction, unset and fractional
+    stoichiometry, shared and own bound parameters in any order, min / max objectives with several flux objectives."""
+    ns = libsbml.SBMLNamespaces(3, 1)
+    ns.addPackageNamespace("fbc", 2)
+    doc = libsbml.SBMLDocument(ns)
+    doc.setPackageRequired("fbc", False)
+    model = doc.createModel()
+    model.setId("foreign")
+    fbc = model.getPlugin("fbc")
+    fbc.setStrict(True)
+    comp = model.createCompartment()
+    comp.setId("c")
+    comp.setConstant(True)
+    nsp = rng.randint(2, 5)
+    sids = [f"M_s{i}_c" for i in range(nsp)]
+    for sid in sids:
+        sp = model.createSpecies()
+        sp.setId(sid)
+        sp.setCompartment("c")
+        sp.setConstant(False)
+        sp.setBoundaryCondition(False)
+        sp.setHasOnlySubstanceUnits(False)
+    values = [-1000.0, 0.0, 1000.0, -10.0, 7.5, 2000.0, 3000.0, float("inf"), float("-inf"), 0.125]
+    rng.shuffle(values)
+    pids = []
+    for i, v in enumerate(values):
+        par = model.createParameter()
+        par.setId(f"p{i}")
+        par.setValue(v)
+        par.setConstant(True)
+        pids.append((f"p{i}", v))
+    obj = fbc.createObjective()
+    obj.setId("o1")
+    obj.setType(rng.choice(["maximize", "minimize"]))
+    fbc.setActiveObjectiveId("o1")
+    nr = rng.randint(2, 5)
+    for j in range(nr):
+        r = model.createReaction()
+        r.setId(f"R_f{j}")
+        r.setReversible(True)
+        r.setFast(False)
+        k = rng.randint(1, min(3, nsp))
+        chosen = rng.sample(sids, k)
+        for sid in chosen:
+            side = rng.choice(["r", "p", "both"])
+            for which in (["r", "p"] if side == "both" else [side]):
+                ref = r.createReactant() if which == "r" else r.createProduct()
+                ref.setSpecies(sid)
+                ref.setStoichiometry(rng.choice([1.0, 1.0, 2.0, 0.5, 3.0]))
+                ref.setConstant(True)
+        lo, hi = sorted(rng.sample(pids, 2), key=lambda t: t[1])
+        rf = r.getPlugin("fbc")
+        rf.setLowerFluxBound(lo[0])
+        rf.setUpperFluxBound(hi[0])
+        if j == 0 or rng.random() < 0.3:
+            fo = obj.createFluxObjective()
+            fo.setReaction(f"R_f{j}")
+            fo.setCoefficient(rng.choice([1.0, -1.0, 0.5, 2.0]))
+    return libsbml.writeSBMLToString(doc)
+
+
+def check_foreign(text):
+    fails = []
+    with warnings.catch_warnings():
+        warnings.simplefilter("ignore")
+        doc = libsbml.readSBMLFromString(text)
+        doc.checkConsistency()
+        errs = [doc.getError(i).getMessage() for i in range(doc.getNumErrors()) if doc.getError(i).getSeverity() >= libsbml.LIBSBML_SEV_ERROR]
+        if errs:
+            return None, "generated document not valid: " + errs[0][:100]
+        try:
+            m = read_sbml_model(text)
+        except Exception as e:
+            return [f"reading a valid third-party document failed: {type(e).__name__}: {str(e)[:200]}"], "ran"
+        fails += file_vs_model(text, m)
+    return fails, "ran"
+
+
 def gen_id(rng):
     n = rng.randint(1, 8)
     return "".join(rng.choice(ID_ALPHABET) for _ in range(n))
@@ -359,6 +438,21 @@ def run(ctx):
         if fails:
             ctx.violations.append({"engine": "SBML round trip on the real code", "case": case, "failures": fails[:6]})
             break
+    # (2b) third-party documents built with libsbml directly
+    nf = ctx.scale(60, 1500)
+    foreign_ok = 0
+    for _ in range(nf):
+        if ctx.violations:
+            break
+        text = foreign_doc(rng)
+        fails, why = check_foreign(text)
+        if fails is None:
+            kinds["foreign_skipped"] = kinds.get("foreign_skipped", 0) + 1
+            continue
+        foreign_ok += 1
+        if fails:
+            ctx.violations.append({"engine": "third-party SBML document", "document": text, "failures": fails[:6]})
+    kinds["foreign_documents"] = foreign_ok
     # (3) shipped files
     shipped = {}
     for p in shipped_files():
